@@ -270,17 +270,21 @@ def constVal (a : JAttrs) : Val :=
   | some c => c.toVal
   | none => .nil
 
+def stringHints (a : JAttrs) : List (String × Val) :=
+  if a.format = "date-time" then [("string_format_datetime", .bool true)] else []
+
+def stringConstraints (a : JAttrs) : List Constraint :=
+  (if a.minLength ≠ -1 then [{ op := "minLength", args := [.int "i" a.minLength] }] else []) ++
+  (if a.maxLength ≠ -1 then [{ op := "maxLength", args := [.int "i" a.maxLength] }] else [])
+
+def stringValue (a : JAttrs) : Val :=
+  match a.pattern with
+  | some p => if regexMatchesConstantString p then .str (constantStringFromRegex p) else constVal a
+  | none => constVal a
+
 /-- `walkString` -/
 def walkString (a : JAttrs) : Ty :=
-  let value :=
-    match a.pattern with
-    | some p => if regexMatchesConstantString p then .str (constantStringFromRegex p) else constVal a
-    | none => constVal a
-  let hints : List (String × Val) := if a.format = "date-time" then [("string_format_datetime", .bool true)] else []
-  let cs : List Constraint :=
-    (if a.minLength ≠ -1 then [{ op := "minLength", args := [.int "i" a.minLength] }] else []) ++
-    (if a.maxLength ≠ -1 then [{ op := "maxLength", args := [.int "i" a.maxLength] }] else [])
-  .scalar "string" value cs { dflt := a.dflt.toVal, hints := hints }
+  .scalar "string" (stringValue a) (stringConstraints a) { dflt := a.dflt.toVal, hints := stringHints a }
 
 /-- `walkBool` -/
 def walkBool (a : JAttrs) : Ty :=
@@ -290,13 +294,17 @@ def boundConstraint (op : String) : Option Bound → List Constraint
   | some b => [{ op := op, args := [.float "f64" b.f64] }]
   | none => []
 
+def numberKind (t0 : String) : String := if t0 = "number" then "float64" else "int64"
+
+def numberValue (a : JAttrs) : Val := match a.const with | some c => unwrapJSONNumber c | none => .nil
+
+def numberConstraints (a : JAttrs) : List Constraint :=
+  boundConstraint ">=" a.minimum ++ boundConstraint ">" a.exclMinimum ++
+  boundConstraint "<=" a.maximum ++ boundConstraint "<" a.exclMaximum
+
 /-- `walkNumber` -/
 def walkNumber (a : JAttrs) (t0 : String) : Ty :=
-  let kind := if t0 = "number" then "float64" else "int64"
-  let value := match a.const with | some c => unwrapJSONNumber c | none => .nil
-  let cs := boundConstraint ">=" a.minimum ++ boundConstraint ">" a.exclMinimum ++
-            boundConstraint "<=" a.maximum ++ boundConstraint "<" a.exclMaximum
-  .scalar kind value cs { dflt := unwrapJSONNumber a.dflt }
+  .scalar (numberKind t0) (numberValue a) (numberConstraints a) { dflt := unwrapJSONNumber a.dflt }
 
 /-- `walkList` -/
 def walkArray (w : Walk) (a : JAttrs) (items items2020 : JItems) (st : St) : Outcome (Ty × St) :=
